@@ -110,6 +110,10 @@ def check_verify(ctx, P):
                     okf = okf and steps == 1
                 lps = [l for l in rules.iter_loops(fn) if ("iter", "arg2") in l["sources"]]
                 okl = len(lps) == 1 and not lps[0]["early_exits"] and [c.split("::")[-1] for c in lps[0]["chain"]] in (["into_iter", "iter"], ["iter"])
+                if not (okf and okl):
+                    cands = [dv] if dv is not None else [c.dest[0] for c in fn.calls() if re.search(r"Iterator(>)?::fold$", c.name()) and not c.dest[1] and leafname.startswith(c.name())]
+                    if len(cands) == 1:
+                        okf = okl = _zero_key_fold_form(P, fn, cands[0])
                 ctx.check(okf and okl, "zero-key", "fold", "d = OR of all 32 public-key bytes (one full iter() loop, OR-fold only)", "verify's all-zero-key test does not OR every key byte (a cancelling or partial fold rejects honest keys / accepts the zero key)", where=fn.where(), key="zero-key:verify:fold")
     else:
         ctx.fail("verdict", "shape", "verify must have exactly three `return false` rejections and one comparison verdict (found %d / %d)" % (len(falses), len(others)), where=fn.where(), key="verdict:verify:shape")
@@ -278,6 +282,42 @@ def check_window(ctx, P):
         if op == "sub" and vals in ((-1,), (255,)) and (sl in cmpd) and tbl_ok and "Div 2" in idx and "Neg(" in idx:
             good += 1
     ctx.check(ok and good == 4, "window", "digit-use", "digit d > 0: + table[d/2]; d < 0: - table[-d/2]; a-digits use ai, b-digits use BI", "double_scalarmult_vartime does not add table[|d|/2] for positive and subtract it for negative digits from the right tables: %s" % uses, where=fn.where(), key="window:digit-use")
+
+
+def _zero_key_fold_form(P, fn, dv):
+    """the all-zero test written as  public_key.iter().fold(0, |acc, b| acc | *b): one fold over the whole key, start 0, and
+    the closure — evaluated to a value graph on a symbolic accumulator and byte — is exactly the OR"""
+    from .. import simd
+    defs = [d_ for d_ in rules.var_defs(fn, dv) if not (d_[1][0] == "call")]
+    if defs:
+        return False          # any other assignment to the accumulator
+    folds = [c for c in fn.calls() if re.search(r"Iterator(>)?::fold$", c.name()) and c.dest[0] == dv and not c.dest[1]]
+    if len(folds) != 1:
+        return False
+    c = folds[0]
+    src = pred.canon(fn.expr(c.args[0]), fn)
+    init = fn.expr(c.args[1])
+    if not re.match(r"^core::slice::<impl \[T\]>::iter\(arg2\)$", src) or init[:2] != ("const", 0) or c.bb in fn.loop_blocks():
+        return False
+    clo = None
+    for b in sorted(fn.reachable()):
+        for st in fn.stmts(b):
+            if st[0] == "=" and st[2][0] == "agg" and st[2][1] and st[2][1][0] == "closure" and not st[2][2]:
+                if c.args[2][0] in ("cp", "mv") and c.args[2][1][0] == st[1][0]:
+                    clo = st[2][1][1]
+    cf = P.fn_opt(clo) if clo else None
+    if cf is None:
+        return False
+    B = simd.TermBank()
+    acc = B.inp("acc", 8)
+    byte = B.inp("b", 8)
+    M = simd.Machine(P, B, 8, {})
+    holder = {"b": byte, "c": {"_closure": clo}}
+    try:
+        out = M.call_fn(cf, [("lref", holder, "c"), acc, ("lref", holder, "b")])
+        return M.scalar_bits(out, 8) == B.or_(acc, byte)
+    except Exception:
+        return False
 
 
 def check_scan(ctx, P):
